@@ -294,6 +294,39 @@ func genPlain(t *rapid.T) truncCase {
 		}
 		m.Ns = append(reuse, m.Ns...)
 		m.Ns = append(m.Ns, reuse...)
+	case 3, 4:
+		// a sparse reply: one question with a long name, records in ONE section only (1..4 of them,
+		// a few hundred octets each, owned by the question name or a child of it), mostly no OPT –
+		// the shapes in which compression alone decides whether the last kept record fits and in
+		// which every "is there anything to compress" shortcut of the packer is at its edge
+		q := gen.NameOfWireLen(t, rapid.IntRange(60, 250).Draw(t, "qlen"), gen.NameOpts{Plain: true})
+		m.Q = []wm.Question{{Name: q, Type: wm.TTXT, Class: 1}}
+		var recs []wm.Rec
+		for i, n := 0, rapid.IntRange(1, 4).Draw(t, "nsparse"); i < n; i++ {
+			r := gen.PlainFiller(rapid.IntRange(2, 420).Draw(t, "fill"))
+			r.Name = q.Clone()
+			if len(q) > 1 && rapid.IntRange(0, 3).Draw(t, "parent") == 0 {
+				r.Name = wm.Name(q[1:]).Clone()
+			}
+			recs = append(recs, r)
+		}
+		var opt []wm.Rec
+		if i := m.Opt(); i >= 0 && rapid.IntRange(0, 2).Draw(t, "keepopt") == 0 {
+			opt = []wm.Rec{m.Ex[i]}
+		}
+		m.An, m.Ns, m.Ex = nil, nil, nil
+		switch rapid.IntRange(0, 2).Draw(t, "onlysec") {
+		case 0:
+			m.An = recs
+		case 1:
+			m.Ns = recs
+		default:
+			m.Ex = recs
+		}
+		if opt != nil {
+			pos := rapid.IntRange(0, len(m.Ex)).Draw(t, "sparseoptpos")
+			m.Ex = append(m.Ex[:pos:pos], append(opt, m.Ex[pos:]...)...)
+		}
 	}
 	return truncCase{M: m, Size: pickSize(t, m), Plain: true, TC: rapid.IntRange(0, 4).Draw(t, "tc") == 0}
 }
